@@ -127,15 +127,21 @@ Fixpoint values_eqb (a b : list value) : bool :=
 
 Definition unexpected : str := [117; 110; 101; 120; 112; 101; 99; 116; 101; 100].   (* "unexpected" *)
 
-Definition table_ffi (libs syms : list str) (tbl : list (str * list value * ffi_outcome))
+(* libs : the libraries that can be opened, each with the symbols it exports;
+   tbl  : responses keyed by (library, symbol, argument slice) *)
+Definition table_ffi (libs : list (str * list str)) (tbl : list (str * str * list value * ffi_outcome))
   : str -> str -> list value -> ffi_outcome :=
   fun lib f args =>
-    if negb (existsb (str_eqb lib) libs) then NoLibrary
-    else if negb (existsb (str_eqb f) syms) then NoSymbol
-    else match find (fun e => str_eqb (fst (fst e)) f && values_eqb (snd (fst e)) args) tbl with
-         | Some e => snd e
-         | None => Raised unexpected
-         end.
+    match find (fun l => str_eqb (fst l) lib) libs with
+    | None => NoLibrary
+    | Some l =>
+        if negb (existsb (str_eqb f) (snd l)) then NoSymbol
+        else match find (fun e => str_eqb (fst (fst (fst e))) lib && str_eqb (snd (fst (fst e))) f
+                                  && values_eqb (snd (fst e)) args) tbl with
+             | Some e => snd e
+             | None => Raised unexpected
+             end
+    end.
 
 (* summary for the driver: status (0 finished, 1 FFI error, 2 no library, 3 no symbol, 4 dirty ret), lines printed,
    executed (ip, operand length), number of foreign calls, error message *)
